@@ -307,7 +307,7 @@ pub enum Act {
     /// `format!("{:?}", it)` after running a script on iter (0) / iter_mut (1) / into_iter (2)
     IterDebug(usize, Script),
     /// next / next_back / nth / nth_back steps on: 0 iter, 1 iter_mut, 2 range(rs), 3 range_mut(rs),
-    /// 4 into_iter (terminal), 5 drain(rs) followed by dropping the drain
+    /// 4 into_iter (terminal), 5 drain(rs) followed by dropping the drain, 6 drain(rs) followed by mem::forget
     StepsOn(usize, Rs, Steps),
     /// `buf.extend(other)` where `other` is a whole buffer of m elements moved in (its owning iterator)
     ExtendFromBuf(usize, usize),
